@@ -280,6 +280,14 @@ def gen_chain(g, filters=0.0, roots=0.0, doc=None, small=False):
     for _ in range(r.randint(1, 2) if small else r.randint(1, 4)):
         g.last_marks.append(len(text))
         if filters and r.random() < filters:
+            frec = r.random() < 0.2
+            if frec:
+                # `..` before the filter: applied to every container below (and including) each value, in pre-order
+                cur = [c1 for v in cur for c1 in chain_below(v)]
+                text += '..'
+
+            def add_f(entry, frec=frec):
+                spec.append((11, entry) if frec else entry)
             conts = [v for v in cur if v[0] in 'ao' and v[1]]
             kids = chain_children(r.choice(conts)) if conts else []
             if r.random() < (0.8 if small else 0.3):
@@ -427,7 +435,7 @@ def gen_chain(g, filters=0.0, roots=0.0, doc=None, small=False):
                     return '!@' + it, ('n', isp), (lambda x, isp=isp: not inner_reach(isp, [x]))
                 dnf = [[one_bq() for _ in range(r.choice([1, 1, 2] if small else [1, 2, 2, 3]))] for _ in range(r.choice([1, 1, 2] if small else [1, 1, 2, 2, 3]))]
                 text += '[?(' + '||'.join('&&'.join(b[0] for b in conj) for conj in dnf) + ')]'
-                spec.append((10, [[b[1] for b in conj] for conj in dnf]))
+                add_f((10, [[b[1] for b in conj] for conj in dnf]))
                 def ok_(b, x, sibs):
                     return b[2](x, sibs) if getattr(b[2], 'sibs', False) else b[2](x)
                 cur = [x for v in cur for sibs in [chain_children(v)] for x in sibs if any(all(ok_(b, x, sibs) for b in conj) for conj in dnf)]
@@ -451,7 +459,7 @@ def gen_chain(g, filters=0.0, roots=0.0, doc=None, small=False):
                 oc = r.randrange(6)
                 optext = ['==', '!=', '<', '<=', '>', '>='][oc]
                 text += '[?(@' + itext + optext + lit + ')]'
-                spec.append((8, ispec, oc, [ord(ch) for ch in lit]))
+                add_f((8, ispec, oc, [ord(ch) for ch in lit]))
 
                 def keep(x):
                     got = inner_reach(ispec, [x])
@@ -465,11 +473,11 @@ def gen_chain(g, filters=0.0, roots=0.0, doc=None, small=False):
             if r.random() < 0.3:
                 # the negation: members from which the inner steps reach nothing
                 text += '[?(!@' + itext + ')]'
-                spec.append((9, ispec))
+                add_f((9, ispec))
                 cur = [x for v in cur for x in chain_children(v) if not inner_reach(ispec, [x])]
                 continue
             text += '[?(@' + itext + ')]'
-            spec.append((7, ispec))
+            add_f((7, ispec))
             cur = [x for v in cur for x in chain_children(v) if inner_reach(ispec, [x])]
             continue
         rec = r.random() < 0.25
@@ -623,7 +631,7 @@ class C01(EvalProp):
                     doc, text, spec, cur = gen_chain(g, filters=fl, roots=0.25 if r.random() < 0.5 else 0.0)
                 if cur or r.random() < 0.25:
                     break
-            has_filter = any(st[0] in (7, 8, 9, 10) for st in spec)      # C01_filter_retrieval: the text is Coq's fchain_path
+            has_filter = any(st[0] in (7, 8, 9, 10, 11) for st in spec)      # C01_filter_retrieval: the text is Coq's fchain_path
             nodollar = not has_filter and spec[0][0] != 4 and r.random() < 0.25
             if nodollar:
                 # C18_dollar_optional: the same path without its leading $ (a first dot name loses its dot, .* becomes *)
@@ -1829,7 +1837,7 @@ class C08(Prop):
             if len(spec) < 2:
                 continue
             # the continuation Q must not look at the document root (fstep_rootfree): `$` there is the value P reached, not the document
-            rooted = [j for j, st in enumerate(spec) if st[0] == 10 and any(b[0] in ('re', 'rn', 'cr', 'pq') for conj in st[1] for b in conj)]
+            rooted = [j for j, st in enumerate(spec) for st1 in [st[1] if st[0] == 11 else st] if st1[0] == 10 and any(b[0] in ('re', 'rn', 'cr', 'pq') for conj in st1[1] for b in conj)]
             lo = max(rooted) + 1 if rooted else 1
             if lo > len(spec) - 1:
                 continue
